@@ -39,6 +39,7 @@ type revInfo struct {
 	Num     int64  // last number seen
 	Foreign bool   // not created by the controller under observation
 	Live    bool
+	Labels  string // canonical JSON of metadata.labels, as last written by a user or at creation
 }
 
 type violation struct {
@@ -240,6 +241,14 @@ func (m *monitor) onRevisionWrite(v *sim.View, ev *sim.Event) {
 		}
 		if sm := specMinusRevision(obj); sm != ri.Spec {
 			m.add("O2-revision-spec-edited", fmt.Sprintf("%s: spec (minus revision) of %s changed after creation: was %s now %s", ev.Short(), name, ri.Spec, sm))
+		}
+		// A revision's labels are a copy of the Composition's labels at the time of the content it
+		// captures (revision selectors of XRs match on them): the controller never rewrites them.
+		if ev.Before != nil {
+			lb, la := kit.JSON(labelsOf(ev.Before)), kit.JSON(labelsOf(obj))
+			if ev.Actor == ctrlActor && lb != la {
+				m.add("O2-revision-labels-edited", fmt.Sprintf("%s: labels of %s changed after creation: were %s now %s", ev.Short(), name, lb, la))
+			}
 		}
 		n := revNum(obj)
 		if n < ri.Num {
